@@ -201,7 +201,10 @@ Definition C09_guard (c : c09case) : bool :=
   | KDrop acts _ => d_no_close acts
   | KRow _ _ _ _ => true
   | KApiColl _ sent _ _ _ => valid_script sent empty_view
-  | KLossy seeded hist acts _ => lossy_guard seeded hist (pubs_of acts)
+  | KLossy seeded hist acts _ =>
+      (* inside the guard: the arrival orders the store can produce (commit order, /repo 3d54e87);
+         the other orders the stage is driven with are compared with the model only *)
+      lossy_guard seeded hist (pubs_of acts) && store_order (pubs_of acts)
   | KPipe _ seeded _ _ hist es blocked =>
       (* a blocked write is judged whatever had been published before it *)
       if blocked then valid_script (changes_after seeded hist) (seed_view seeded hist)
